@@ -11,10 +11,17 @@ def setup():
     import concurrent.futures as cf
     from . import aux
     with cf.ThreadPoolExecutor(4) as ex:
-        futs = [ex.submit(build.ensure, v) for v in ("std", "asan", "fuzz")]
+        futs = [ex.submit(build.ensure, v) for v in ("std", "fuzz")]
         futs.append(ex.submit(aux.ensure_all))
         for f in futs:
             f.result()
+    # harnesses and the python-native run-time object are built on top of the two trees
+    aux.ensure_pyrt()
+    for name, variant, libs in (("fz_parse", "fuzz", ("cppParser", "dtoolutil", "dtoolbase")),):
+        try:
+            aux.ensure_harness(name, variant, libs=libs)
+        except Exception as e:       # a check that needs it will report the problem itself
+            print("setup: harness %s: %s" % (name, e))
     print("setup ok")
     return 0
 
